@@ -15,6 +15,9 @@ def genPartitions (n c p : Nat) (m : Option Nat) : List (Nat × Nat) :=
   let s := min p k
   (List.range s).map fun i => (splitStart k s i * c, min (splitStart k s (i+1) * c) n)
 
+/-- records actually written: all of them, or the first `m` chunks -/
+def totalWritten (n c : Nat) (m : Option Nat) : Nat := min (numChunks n c m * c) n
+
 /-- `VcfZarrPartition.generate_partitions` including its error branch:
     `np.array_split(…, 0)` raises when there is nothing to split or no partition was asked for. -/
 def genPartitionsE (n c p : Nat) (m : Option Nat) : Option (List (Nat × Nat)) :=
